@@ -1,5 +1,104 @@
-import GoRedisModel.Model.Show
-/-! placeholder until the theorems of C03 are written -/
+import GoRedisModel.Proofs.Loop
+/-! # C03 — every command gets exactly one reply, in order, without needing more input -/
 namespace GoRedis
-theorem C03_placeholder : True := trivial
+
+/-- **The connection loop, on any pipeline of canonical values, is the request-level semantics `steps`**:
+request after request — parse, execute, write the reply, and only then turn to the next one.  The fuel
+`input.length + 1` that `serve` uses is always enough: nothing in the loop or in any executor spins. -/
+theorem C03_loop_is_request_semantics (pf : FloatOracle) (ms : List Msg) (hw : wfs ms)
+    (srv : SrvSt) (requirePass : Bool) (script : List HRes) :
+    serve pf srv requirePass (encs ms) script =
+      [Ev.register] ++ steps pf srv { authorized := !requirePass } ms script ++ [.deregister, .close] := by
+  have h := encs_length_ge ms (wfs_noAbsents ms hw)
+  simp only [serve]
+  rw [serveLoop_steps pf ms hw _ (by omega)]
+
+/-- **Exactly one reply per request**: a request's block of the trace contains exactly one write — a single
+complete frame — unless the request ends in a recovered panic (then it contains none and the connection is
+closed). -/
+theorem C03_one_reply_each (pf : FloatOracle) (srv : SrvSt) (conn : ConnSt) (m : Msg) (script : List HRes) :
+    (crashedIn (reqStep pf srv conn m script).evs = false →
+      ∃ bs, writesOf (reqStep pf srv conn m script).evs = [bs] ∧ Frame bs) ∧
+    (crashedIn (reqStep pf srv conn m script).evs = true →
+      writesOf (reqStep pf srv conn m script).evs = [] ∧ (reqStep pf srv conn m script).next = none) :=
+  ⟨reqStep_one_write pf srv conn m script, reqStep_crash pf srv conn m script⟩
+
+/-- **In order**: the writes of the whole connection are the replies of its requests, in request order. -/
+theorem C03_replies_in_order (pf : FloatOracle) (ms : List Msg) (hw : wfs ms)
+    (srv : SrvSt) (requirePass : Bool) (script : List HRes) :
+    writesOf (serve pf srv requirePass (encs ms) script) =
+      repliesOf pf srv { authorized := !requirePass } ms script := by
+  rw [C03_loop_is_request_semantics pf ms hw]
+  simp [writesOf_append, writesOf, steps_writes]
+
+/-- never more replies than requests; exactly as many when no request ends the connection -/
+theorem C03_reply_count (pf : FloatOracle) (ms : List Msg) (srv : SrvSt) (conn : ConnSt) (script : List HRes) :
+    (repliesOf pf srv conn ms script).length ≤ ms.length ∧
+    (Alive pf srv conn ms script → (repliesOf pf srv conn ms script).length = ms.length) :=
+  ⟨repliesOf_length_le pf srv conn ms script, repliesOf_length_alive pf srv conn ms script⟩
+
+/-- **The reply is written before the next request is touched**: in the request-level trace the block of
+request `m` — with its handler calls and its write — is complete before the block of the next request
+starts (the next `rootStart`/parse). -/
+theorem C03_reply_before_next (pf : FloatOracle) (srv : SrvSt) (conn : ConnSt) (m : Msg) (ms : List Msg) (script : List HRes) :
+    ∃ tail, steps pf srv conn (m :: ms) script =
+      [Ev.rootStart, .spanStart b!"parse", .spanFinish] ++ (reqStep pf srv conn m script).evs ++ tail :=
+  by
+    cases h : (reqStep pf srv conn m script).next with
+    | none => exact ⟨[], by simp [steps, h]⟩
+    | some p => exact ⟨steps pf p.2 p.1 ms (reqStep pf srv conn m script).script, by simp [steps, h]⟩
+
+/-- **QUIT**: a request whose outcome ends the connection is the last thing in the trace — requests
+pipelined behind it are neither executed nor answered, whatever they are. -/
+theorem C03_quit_cuts_off (pf : FloatOracle) (srv : SrvSt) (conn : ConnSt) (m : Msg) (ms : List Msg) (script : List HRes)
+    (h : (reqStep pf srv conn m script).next = none) :
+    steps pf srv conn (m :: ms) script =
+      [Ev.rootStart, .spanStart b!"parse", .spanFinish] ++ (reqStep pf srv conn m script).evs := by
+  simp [steps, h]
+
+/-- QUIT in any letter case, with any trailing arguments, on an authorized connection: the reply is `+OK`
+and the connection ends. -/
+theorem C03_quit_reply (pf : FloatOracle) (srv : SrvSt) (conn : ConnSt) (c : Bytes) (rest : List Msg) (script : List HRes)
+    (hu : upper c = b!"QUIT") (ha : conn.authorized = true) (hh : srv.hasHandler = true) :
+    writesOf (reqStep pf srv conn (.arr (B c :: rest)) script).evs = [b!"+OK\r\n"] ∧
+    (reqStep pf srv conn (.arr (B c :: rest)) script).next = none := by
+  simp [reqStep, handleMessage, handleArray, depth, B, msgStr, executeCommand, hu, hh, ha, execSystem,
+    Prog.run, Prog.SpanOp.ev, replyBytes, okMsg, encGo, noAbsent, enc, sanitize, sanByte, CR, LF, CRLF, LineTy.byte,
+    writesOf, Out.isQuit]
+
+/-- **A handler error becomes an error reply and leaves the connection usable**: whatever the request,
+if its outcome is an error the reply is one error frame and the loop goes on with the connection and
+server state the executor left. -/
+theorem C03_handler_error_usable (pf : FloatOracle) (srv : SrvSt) (conn : ConnSt) (m : Msg) (script : List HRes)
+    (evs : List Ev) (e : Err) (conn' : ConnSt) (srv' : SrvSt) (script' : List HRes)
+    (h : (handleMessage pf srv conn m).run conn script = (evs, some (.error e, conn', srv'), script')) :
+    (reqStep pf srv conn m script).next = some (conn', srv') ∧
+    writesOf (reqStep pf srv conn m script).evs = [enc (.line .err e.text)] := by
+  have hw := writesOf_run conn (handleMessage pf srv conn m) script
+  rw [h] at hw
+  simp only at hw
+  simp [reqStep, h, replyBytes, Out.isQuit, writesOf_append, hw, writesOf]
+
+/-- a single-call command whose handler returns an error: the error text becomes the reply -/
+theorem C03_handler_error_reply (r : HRes) (t : Bytes) (h : r.err = some t) : outOf r = .error { text := t } := by
+  simp [outOf, h]
+
+/-- **No spin in ZADD's flag loop**: ZADD with any of its flags in front of the first score reads on and
+calls the handler once (this request made the connection goroutine spin forever before the repair). -/
+theorem C03_zadd_flags_terminate (pf : FloatOracle) (k m score : Bytes) (v : UInt64) (hs : pf score = some v)
+    (hnf : zaddFlag (upper score) { nx := true } = none) :
+    execZAdd pf [B k, B b!"NX", B score, B m] = callRet (.zadd k [(v, m)] { nx := true }) := by
+  have hnx : zaddFlag (upper b!"NX") {} = some { nx := true } := by decide
+  simp [execZAdd, withArgs, nextString, nextStringRaw, B, msgStr, zaddHead, zaddPairs, hs, hnf, hnx]
+
+/-! ## Non-vacuity -/
+
+example : wfs [.arr [B b!"PING"], .arr [B b!"QUIT"], .arr [B b!"PING"]] := by
+  simp [wfs, wf, B, maxBulk, maxInt]
+
+/-- PING, QUIT, PING: two replies, `+PONG` then `+OK`; the PING behind QUIT is not answered -/
+example : writesOf (serve (fun _ => none) {} false
+    (encs [.arr [B b!"PING"], .arr [B b!"QUIT"], .arr [B b!"PING"]]) []) = [b!"+PONG\r\n", b!"+OK\r\n"] := by
+  decide +kernel
+
 end GoRedis
